@@ -54,6 +54,8 @@ type Contract struct {
 	Modifies    []string
 	ModAll      bool
 	HasMod      bool
+	KeepStable  bool // `keeps stable [except c...]`: writes no stable / private field of a pre-existing object other than the listed components (checked as a frame)
+	KeepExcept  []string
 	Pure        bool
 	Trusted     bool
 	Extern      bool
@@ -344,6 +346,12 @@ func (db *ContractDB) LoadContractFile(file, pkgPath string) {
 					return
 				}
 				kind := fs[1]
+				switch kind {
+				case "invariant", "decreases", "step", "exit", "trace_step":
+				default:
+					errf("unknown loop clause kind %q", kind)
+					return
+				}
 				text := strings.TrimSpace(strings.SplitN(r, kind, 2)[1])
 				p2, text2 := parseProps(text)
 				var cond *SExpr
@@ -499,6 +507,16 @@ func (db *ContractDB) LoadContractFile(file, pkgPath string) {
 					} else {
 						cur.Modifies = append(cur.Modifies, m)
 					}
+				}
+			case "keeps":
+				fs := strings.FieldsFunc(r, func(c rune) bool { return c == ',' || c == ' ' })
+				if len(fs) == 0 || fs[0] != "stable" || (len(fs) > 1 && (fs[1] != "except" || len(fs) < 3)) {
+					errf("keeps: expected `keeps stable [except component, ...]`")
+					return
+				}
+				cur.KeepStable = true
+				if len(fs) > 2 {
+					cur.KeepExcept = append(cur.KeepExcept, fs[2:]...)
 				}
 			case "allocates":
 				cur.Allocates = append(cur.Allocates, strings.FieldsFunc(r, func(c rune) bool { return c == ',' || c == ' ' })...)
